@@ -18,10 +18,10 @@ EXTENDS Integers, Sequences, FiniteSets, Layouts
 
 CONSTANT Dev
 
-FLen(k) == CASE k = "pt" -> 48 [] k = "sc" -> 32 [] k = "pk" -> 96 [] OTHER -> 0
+FLen(k) == CASE k = "pt" -> 48 [] k = "sc" -> 32 [] k = "pk" -> 96 [] k = "pku" -> 192 [] OTHER -> 0
 
-Codecs == {"public_key", "secret_key", "blind_factor", "signature", "proof", "commitment"}
-Variable(c) == c \in {"proof", "commitment"}           \* encodings with a variable number of scalars
+Codecs == {"public_key", "pk_coords", "secret_key", "blind_factor", "signature", "proof", "commitment", "zkpok"}
+Variable(c) == c \in {"proof", "commitment", "zkpok"}           \* encodings with a variable number of scalars
 
 \* the field kinds of an encoding with n variable scalars ("scs" expanded)
 RECURSIVE Expand(_, _, _)
@@ -40,7 +40,7 @@ ScClasses == {"valid", "zero", "ge_r", "max"}
 ClassesOf(k) == IF k = "sc" THEN ScClasses ELSE PtClasses
 
 \* is a field of kind k and class cl acceptable to a strict decoder of codec c at position j?
-IdentityForbidden(c, j) == c \in {"public_key", "signature", "proof"}     \* W, A, Abar/Bbar/D
+IdentityForbidden(c, j) == c \in {"public_key", "pk_coords", "signature", "proof"}     \* W, A, Abar/Bbar/D
 ZeroForbidden(c, j) == c = "signature"                                    \* e of a signature
 FieldOk(c, j, k, cl) ==
   IF k = "sc" THEN cl = "valid" \/ (cl = "zero" /\ (~ZeroForbidden(c, j) \/ "F4" \in Dev))
@@ -66,6 +66,7 @@ Decode(c, n, cls, delta) ==
       laxok == CASE c = "public_key" -> len >= 96
                  [] c = "proof"      -> len >= 272
                  [] c = "commitment" -> len >= 112
+                 [] c = "zkpok"      -> len >= 64
                  [] OTHER            -> len = FixedLen(c)
       whole == Whole(ks, len, 1)                     \* honest fields fully present
       \* every fully present honest field the decoder looks at must be acceptable;
@@ -76,6 +77,7 @@ Decode(c, n, cls, delta) ==
       short == CASE c = "public_key" -> len < 96
                  [] c = "proof"      -> len < 240
                  [] c = "commitment" -> len < 80
+                 [] c = "zkpok"      -> len < 32
                  [] OTHER            -> FALSE
   IN  IF "F2" \in Dev /\ short
         THEN (IF \E j \in 1 .. whole : ~FieldOk(c, j, ks[j], cls[j]) THEN "Err" ELSE "Panic")
